@@ -25,7 +25,7 @@ for pid, f, name in cands:
     size = len(json.dumps(body))
     steps = body.get('case', {}).get('steps') if isinstance(
         body.get('case'), dict) else None
-    heavy = steps and sum(1 for s_ in steps if s_.get('op') in (
+    heavy = steps and sum(1 for s_ in steps if isinstance(s_, dict) and s_.get('op') in (
         'fault', 'placed', 'rejected', 'cmdfail', 'twin')) > 12
     if size > 60000 or heavy:
         print('skip (too large / too slow for the replay tier)', f)
